@@ -84,6 +84,7 @@ fn main() {
         "C01" => props::c01::run(&mk("C01")),
         "C02" => props::c02::run(&mk("C02")),
         "C03" => props::c03::run(&mk("C03")),
+        "C04" => props::c04::run(&mk("C04")),
         "C05" => props::c05::run(&mk("C05")),
         "C07" => props::c07::run(&mk("C07")),
         "C08" => props::c08::run(&mk("C08")),
